@@ -238,7 +238,7 @@ def correspond(ctx, scale):
     residual_roundtrip('rfsq-proj', lambda lay: ResidualFSQ(levels=[4, 3], num_quantizers=2, dim=4, quantize_dropout=True), 4, ('seq',), False, False)
     residual_roundtrip('grfsq', lambda lay: GroupedResidualFSQ(dim=4, groups=2, levels=[3, 3], num_quantizers=2, quantize_dropout=True), 4, ('seq',), True, False)
     residual_roundtrip('rlfq', lambda lay: ResidualLFQ(dim=3, codebook_size=8, num_quantizers=3, quantize_dropout=True), 3, ('seq',), True, False)
-    residual_roundtrip('grlfq', lambda lay: GroupedResidualLFQ(dim=6, groups=2, codebook_size=8, num_quantizers=2, quantize_dropout=True), 6, ('seq',), True, False)
+    residual_roundtrip('grlfq', lambda lay: GroupedResidualLFQ(dim=6, groups=2, codebook_size=8, num_quantizers=2, quantize_dropout=(lay != 'image'), accept_image_fmap=(lay == 'image')), 6, ('seq', 'image'), True, False)
     residual_roundtrip('rsimvq', lambda lay: ResidualSimVQ(dim=3, num_quantizers=3, codebook_size=6, quantize_dropout=True, channel_first=(lay != 'seq')), 3, ('seq', 'cfirst'), False, False)
     # ------------------------------------------------------------------ FSQ / LFQ / SimVQ / LatentQuantize
     single = []
